@@ -98,6 +98,11 @@ def _run_cases(cases, oracles, nontrivial):
                 if ins[0] in ('raise', 'fail') and 'Cancelled' in ins:
                     hist['shape:exception not derived from Exception'] += 1
         hist['kind:' + getattr(c, 'kind', 'corpus')] += 1
+        for n_ in runners[c.cid].notes:
+            if n_[0] == 'cond-form':
+                hist[f'shape:condition operands as {n_[1]}' + (' (empty)' if n_[2] == 0 else '')] += 1
+            elif n_[0] == 'evicted':
+                hist['shape:eviction decided during ' + ('a kernel step' if n_[6][0] == 'step' else f'a {n_[6][0]} call')] += 1
         txt = c.text().split('\n', 1)[1]
         nt = bool((nontrivial or default_nontrivial)(c, a))
         distinct[txt] = distinct.get(txt, False) or nt
